@@ -311,8 +311,15 @@ def run(ctx, res):
         inner = mg.calls("clock_gettime")
         if inner:
             a0 = strip(call_args(inner[0])[0])
-            res.check(a0["k"] == "DeclRefExpr" and a0.get("dk") == "param" and a0["idx"] == 0, "C07.R8", site(mg, "forwards-clock"),
-                      "my_gettime passes its clock id on to clock_gettime", "my_gettime ignores the clock id it is given", mg.loc(inner[0]))
+            rewrites = [n for n, lhs in stores_in(mg) if lhs["k"] == "DeclRefExpr" and lhs.get("dk") == "param" and lhs.get("idx") == 0]
+            res.check(a0["k"] == "DeclRefExpr" and a0.get("dk") == "param" and a0["idx"] == 0 and not rewrites, "C07.R8", site(mg, "forwards-clock"),
+                      "my_gettime passes the clock id it is given, unchanged, on to clock_gettime",
+                      "my_gettime %s: the caller's choice of a fine-grained clock is not honoured" %
+                      ("replaces the clock id it is given before reading the clock" if rewrites else "ignores the clock id it is given"),
+                      mg.loc(rewrites[0] if rewrites else inner[0]))
+            coarse_here = [c for c in inner if const_val(call_args(c)[0]) in set(coarse.values())]
+            for c in coarse_here:
+                res.bad("C07.R8", site(mg, "coarse-clock"), "my_gettime reads a coarse clock whatever it is asked for", mg.loc(c))
 
 
     # ---- closure pairing ----------------------------------------------------------------------
